@@ -551,7 +551,13 @@ def call_container_method(I: Interp, recv: SV, name: str, args, kwargs, fr: Fram
             return SV(smt.mk_int(r_), T.INT)
         if name == "choice" and len(args) == 1 and "p" in kwargs:
             # numpy Generator.choice(n, p=vec): requires len(vec) == n; ensures 0 <= r < n and vec[r] > 0
-            n_, _ = I.num(args[0])
+            # (choice(seq, p=vec): the same index r, result seq[r])
+            pick_from = None
+            if isinstance(args[0], SV) and T.strip_opt(args[0].ty).k == "list":
+                pick_from = args[0]
+                n_ = I.list_len(pick_from)
+            else:
+                n_, _ = I.num(args[0])
             p_ = kwargs["p"]
             if not isinstance(p_, SV) or T.strip_opt(p_.ty).k not in ("list", "dict"):
                 raise Refuse("rng.choice(p=...) with a non-sequence probability vector")
@@ -564,6 +570,10 @@ def call_container_method(I: Interp, recv: SV, name: str, args, kwargs, fr: Fram
                 pv, isr = I.num(SV(z3.Select(z3.Select(st.arr("dget"), smt.rid(p_.t)), smt.mk_int(r_)), T.FLOAT))
             st.assume(z3.And(r_ >= 0, r_ < n_, pv > 0))
             st.log.append("numpy Generator.choice(n, p): 0 <= r < n and p[r] > 0 (assumed library contract)")
+            if pick_from is not None:
+                v_ = I.list_get(pick_from, r_)
+                st.assume_wt(v_)
+                return v_
             return SV(smt.mk_int(r_), T.INT)
         raise Refuse(f"rng.{name}")
     raise Refuse(f"method {name} on value of type {recv.ty}")
